@@ -26,6 +26,8 @@ fn info(c: &Case) -> Info {
         .class_if(c.chunks.iter().any(|x| x.is_empty()), "empty_chunk")
         .class_if(c.chunks.len() >= 2, "several_chunks")
         .class_if(multi, "chunk_of_two_or_more")
+        .class_if(c.chunks.iter().any(|x| x.len() >= 64), "chunk_of_64_or_more")
+        .class_if(c.chunks.iter().any(|x| x.len() >= 1024), "chunk_of_1024_or_more")
 }
 
 pub struct ExtBloom;
@@ -138,7 +140,14 @@ impl Check for ExtHll {
 
 pub fn strategy(p1: BoxedStrategy<usize>, p2: BoxedStrategy<usize>) -> BoxedStrategy<Case> {
     let key = prop_oneof![3 => 0u64..20, 1 => any::<u64>()];
-    (p1, p2, prop::collection::vec(prop::collection::vec(key.clone(), 0..12), 0..6), prop::collection::vec(key, 0..30))
+    // mostly short chunks (they shrink well); long ones reach block-wise implementations of extend
+    let chunk = prop_oneof![
+        8 => prop::collection::vec(key.clone(), 0..12),
+        2 => prop::collection::vec(any::<u64>(), 0..150),
+        1 => prop::collection::vec(any::<u64>(), 150..1100),
+        1 => (any::<u64>(), 1usize..5000).prop_map(|(s, n)| (0..n as u64).map(|i| mix(s, i)).collect::<Vec<u64>>()),
+    ];
+    (p1, p2, prop::collection::vec(chunk, 0..6), prop::collection::vec(key, 0..30))
         .prop_map(|(p1, p2, chunks, probes)| Case { p1, p2, chunks, probes })
         .boxed()
 }
